@@ -549,6 +549,13 @@ def g_lossy_iterator(ctx):
     ctx.ob("the iterator is fed by the observation's callbacks (push) and errbacks (push_err)", len(regs_cb) == 1 and len(regs_eb) == 1, ai, ai.node, construct="ClientObservation.__aiter__ wiring")
 
 
+@R.clause("C07.h", "a transport failure ends the observation with a network error: the error is fanned out to every outstanding request of that remote, each through its own stopper (shared with C02.e / C02.j)")
+def h_shared(ctx):
+    from . import c02
+    c02.e(ctx)
+    c02.j_forward(ctx)
+
+
 F_PRO = "aiocoap/protocol.py"
 F_TM = "aiocoap/tokenmanager.py"
 F_CON = "aiocoap/numbers/constants.py"
@@ -591,3 +598,5 @@ R.seed("C07.g", F_PRO, "                if f is self._future:\n                 
 R.seed("C07.g", F_PRO, "        def push(self, item):\n            if self._future.done():", "        def push(self, item):\n            if False:", "second notification raises InvalidStateError in the callback")
 R.seed("C07.g", F_PRO, "            except (error.NotObservable, error.ObservationCancelled):\n                # only exit cleanly", "            except (error.NotObservable, error.ObservationCancelled, error.NetworkError):\n                # only exit cleanly", "network errors end the iteration silently")
 R.seed("C07.g", F_PRO, "        self.register_errback(it.push_err, _suppress_deprecation=True)\n        return it", "        return it", "errors never reach the iterator")
+
+R.seed("C07.h", "aiocoap/tokenmanager.py", "                    lambda request=request, exception=exception: request.add_exception(\n                        exception\n                    )", "                    lambda: request.add_exception(\n                        exception\n                    )", "the observation never ends with the NetworkError; a later unrelated request gets it")
